@@ -172,7 +172,8 @@ pub fn jpquery(segs: &[ASeg]) -> Option<JpQuery> {
 use serde_json::{json, Value};
 
 fn enc_int(i: i64) -> i64 {
-    if i.abs() <= 1_000_000 {
+    // JPParse.MagOfDigits: up to 9 digits the exact value, beyond that the BIG abstraction
+    if i.abs() <= 999_999_999 {
         i
     } else {
         let d = i.abs() - MAXI;
